@@ -1,0 +1,227 @@
+//go:build verif
+
+// Contracts for package lexer, read by the verification engine in /verif (twv).
+// This file contains comments only; it is compiled only with the build tag "verif"
+// and adds no code to the package.
+package lexer
+
+// ---- positions (the property's own definition of line and byte column) ----
+
+//@ spec lineOf(s string, i int) int
+//@ spec colOf(s string, i int) int
+//@ spec byteAt(s string, i int) int = ite(0 <= i && i < len(s), int(s[i]), 0)
+//@ axiom posBase(s string): lineOf(s, 0) == 0 && colOf(s, 0) == 0
+//@ axiom posStep(s string, i int): i >= 0 ==> ite(byteAt(s, i) == '\n',
+//@        lineOf(s, i+1) == lineOf(s, i)+1 && colOf(s, i+1) == 0,
+//@        lineOf(s, i+1) == lineOf(s, i) && colOf(s, i+1) == colOf(s, i)+1)
+
+//@ spec isSpaceC(c int) bool = c == ' ' || c == '\t' || c == '\n' || c == '\r'
+//@ spec isIdentC(c int) bool = ('a' <= c && c <= 'z') || ('A' <= c && c <= 'Z') || c == '_'
+//@ spec isNumberC(c int) bool = '0' <= c && c <= '9'
+//@ spec live(t token.TokenType) bool = t != token.EOF && t != token.ILLEGAL
+
+// ghost: byte offset at which the current token began (set by tokenBegins)
+//@ ghost field Lexer.startPos int
+
+//@ pred LexInv(l *Lexer) = l.pos >= 0 && l.readPos == l.pos+1 && int(l.char) == byteAt(l.input, l.pos)
+//@      && int(l.line) == lineOf(l.input, l.pos) && int(l.col) == colOf(l.input, l.pos)
+//@      && l.shouldResetCol == (l.char == '\n')
+//@      && (l.pos > 0 ==> int(l.prevLine) == lineOf(l.input, l.pos-1) && int(l.prevCol) == colOf(l.input, l.pos-1))
+//@      && (l.pos == 0 ==> l.prevLine == 0 && l.prevCol == 0)
+//@      && 0 <= l.startPos && l.startPos <= l.pos
+//@      && int(l.startLine) == lineOf(l.input, l.startPos) && int(l.startCol) == colOf(l.input, l.startPos)
+
+//@ pred LexInit(l *Lexer) = l.pos == 0 && l.readPos == 0 && l.col == 0 && l.line == 0 && !l.shouldResetCol
+//@      && l.prevLine == 0 && l.prevCol == 0 && l.startPos == 0 && l.startLine == 0 && l.startCol == 0
+
+// A token's recorded range is the (line, column) of its first byte (the ghost start
+// offset) and of its last byte (the byte before the read position); EOF sits at pos.
+//@ pred TokSpan(l *Lexer, t token.Token) = int(t.Pos.StartLine) == lineOf(l.input, l.startPos)
+//@      && int(t.Pos.StartCol) == colOf(l.input, l.startPos)
+//@      && (t.Type != token.EOF && l.pos > 0 ==> int(t.Pos.EndLine) == lineOf(l.input, l.pos-1) && int(t.Pos.EndCol) == colOf(l.input, l.pos-1))
+//@      && (t.Type != token.EOF && l.pos == 0 ==> t.Pos.EndLine == 0 && t.Pos.EndCol == 0)
+//@      && (t.Type == token.EOF ==> int(t.Pos.EndLine) == lineOf(l.input, l.pos) && int(t.Pos.EndCol) == colOf(l.input, l.pos))
+
+//@ pred Advance(l *Lexer, p0 int, t token.Token, n int) = LexInv(l) && l.pos == p0+n && l.startPos == p0 && TokSpan(l, t)
+
+//@ modset POS = l.pos, l.readPos, l.char, l.col, l.prevCol, l.line, l.prevLine, l.shouldResetCol
+//@ modset START = l.startCol, l.startLine, l.startPos
+
+//@ func New
+//@   use posBase(input)
+//@   ensures fresh(result) && LexInv(result) && result.pos == 0 && result.startPos == 0 && result.input == input
+//@   ensures result.isHTML && !result.isDirective && result.countCurlyBraces == 0 && result.countDirectiveParentheses == 0
+//@   modifies nothing
+
+//@ func (l *Lexer) readChar
+//@   requires LexInv(l) || LexInit(l)
+//@   use posStep(l.input, l.pos)
+//@   use posBase(l.input)
+//@   ensures old(LexInv(l)) ==> LexInv(l) && l.pos == old(l.pos)+1
+//@   ensures old(LexInit(l)) ==> LexInv(l) && l.pos == 0
+//@   modifies @POS
+
+//@ func (l *Lexer) tokenBegins
+//@   requires LexInv(l)
+//@   ghost l.startPos = l.pos
+//@   ensures LexInv(l) && l.startPos == l.pos
+//@   modifies @START
+
+//@ func (l *Lexer) newToken
+//@   requires LexInv(l)
+//@   ensures result.Type == tokType && result.Literal == literal && TokSpan(l, result)
+//@   modifies nothing
+
+//@ func (l *Lexer) bracesToken
+//@   requires LexInv(l)
+//@   ensures Advance(l, old(l.pos), result, 2) && result.Type == tok && result.Literal == literal
+//@   ensures l.isHTML == (tok != token.LBRACES)
+//@   modifies @POS, @START, l.isHTML
+
+//@ func (l *Lexer) illegalToken
+//@   requires LexInv(l)
+//@   ensures Advance(l, old(l.pos), result, 0) && result.Type == token.ILLEGAL
+//@   modifies @START
+
+//@ func (l *Lexer) incrementToken
+//@   requires LexInv(l)
+//@   ensures Advance(l, old(l.pos), result, 2) && result.Type == token.INC
+//@   modifies @POS, @START
+
+//@ func (l *Lexer) addToken
+//@   requires LexInv(l)
+//@   ensures Advance(l, old(l.pos), result, 1) && result.Type == token.ADD
+//@   modifies @POS, @START
+
+//@ func (l *Lexer) assignToken
+//@   requires LexInv(l)
+//@   ensures Advance(l, old(l.pos), result, 1) && result.Type == token.ASSIGN
+//@   modifies @POS, @START
+
+//@ func (l *Lexer) equalToken
+//@   requires LexInv(l)
+//@   ensures Advance(l, old(l.pos), result, 2) && result.Type == token.EQ
+//@   modifies @POS, @START
+
+//@ func (l *Lexer) leftBraceToken
+//@   requires LexInv(l)
+//@   ensures Advance(l, old(l.pos), result, 1) && result.Type == token.LBRACE
+//@   ensures l.countCurlyBraces == old(l.countCurlyBraces)+1
+//@   modifies @POS, @START, l.countCurlyBraces
+
+//@ func (l *Lexer) rightBraceToken
+//@   requires LexInv(l)
+//@   ensures Advance(l, old(l.pos), result, 1) && result.Type == token.RBRACE
+//@   ensures l.countCurlyBraces == old(l.countCurlyBraces)-1
+//@   modifies @POS, @START, l.countCurlyBraces
+
+//@ func (l *Lexer) leftParenthesesToken
+//@   requires LexInv(l)
+//@   ensures Advance(l, old(l.pos), result, 1) && result.Type == token.LPAREN
+//@   modifies @POS, @START, l.countDirectiveParentheses
+
+//@ func (l *Lexer) rightParenthesesToken
+//@   requires LexInv(l)
+//@   ensures Advance(l, old(l.pos), result, 1) && result.Type == token.RPAREN
+//@   modifies @POS, @START, l.countDirectiveParentheses, l.isDirective, l.isHTML
+
+//@ func (l *Lexer) numberToken
+//@   requires LexInv(l) && isNumberC(int(l.char))
+//@   ensures LexInv(l) && l.pos > old(l.pos) && l.startPos == old(l.pos) && TokSpan(l, result)
+//@   ensures result.Type == token.INT || result.Type == token.FLOAT
+//@   modifies @POS, @START
+
+//@ func (l *Lexer) readNumber
+//@   requires LexInv(l) && isNumberC(int(l.char))
+//@   ensures LexInv(l) && l.pos > old(l.pos) && l.startPos == old(l.pos)
+//@   ensures result0 == l.input[old(l.pos):l.pos]
+//@   modifies @POS, @START
+//@   loop 0: invariant LexInv(l) && l.startPos == old(l.pos) && l.pos >= old(l.pos) && l.pos <= len(l.input)
+//@   loop 0: invariant l.pos == old(l.pos) ==> l.char == old(l.char)
+//@   loop 0: invariant pos == old(l.pos)
+//@   loop 0: decreases len(l.input) - l.pos
+
+//@ func (l *Lexer) readIdentifier
+//@   requires LexInv(l) && isIdentC(int(l.char))
+//@   ensures LexInv(l) && l.pos > old(l.pos) && l.startPos == old(l.pos)
+//@   ensures result == l.input[old(l.pos):l.pos]
+//@   modifies @POS, @START
+//@   loop 0: invariant LexInv(l) && l.startPos == old(l.pos) && l.pos >= old(l.pos) && l.pos <= len(l.input)
+//@   loop 0: invariant l.pos == old(l.pos) ==> l.char == old(l.char)
+//@   loop 0: invariant pos == old(l.pos)
+//@   loop 0: decreases len(l.input) - l.pos
+
+//@ func (l *Lexer) readString
+//@   requires LexInv(l) && l.char != 0
+//@   ensures LexInv(l) && l.pos > old(l.pos)+1 && l.startPos == old(l.pos)
+//@   modifies @POS, @START
+//@   loop 0: invariant LexInv(l) && l.startPos == old(l.pos) && l.pos > old(l.pos) && l.pos <= len(l.input)
+//@   loop 0: invariant pos == old(l.pos)+1
+//@   loop 0: decreases len(l.input) - l.pos
+
+//@ func (l *Lexer) readDirective
+//@   requires LexInv(l)
+//@   ensures LexInv(l) && l.pos >= old(l.pos) && l.startPos == old(l.pos)
+//@   ensures result0 != token.ILLEGAL ==> l.pos > old(l.pos)
+//@   modifies @POS, @START
+//@   loop 0: invariant LexInv(l) && l.startPos == old(l.pos) && l.pos >= old(l.pos)
+//@   loop 0: invariant tok != token.ILLEGAL ==> l.pos > old(l.pos)
+//@   loop 0: decreases len(l.input) - l.pos
+
+//@ func (l *Lexer) directiveToken
+//@   requires LexInv(l)
+//@   ensures LexInv(l) && l.pos >= old(l.pos) && l.startPos >= old(l.pos) && TokSpan(l, result)
+//@   ensures live(result.Type) ==> l.pos > old(l.pos)
+//@   modifies @POS, @START, l.isDirective, l.isHTML
+
+//@ func (l *Lexer) embeddedCodeToken
+//@   requires LexInv(l) && l.char != 0
+//@   ensures LexInv(l) && l.pos >= old(l.pos) && l.startPos == old(l.pos) && TokSpan(l, result)
+//@   ensures live(result.Type) ==> l.pos > old(l.pos)
+//@   ensures result.Type != token.EOF
+//@   modifies @POS, @START, l.countCurlyBraces, l.countDirectiveParentheses, l.isDirective, l.isHTML
+
+//@ func (l *Lexer) skipWhitespace
+//@   requires LexInv(l)
+//@   ensures LexInv(l) && l.pos >= old(l.pos) && !isSpaceC(int(l.char))
+//@   ensures forall(i, old(l.pos), l.pos, isSpaceC(byteAt(l.input, i)))
+//@   modifies @POS
+//@   loop 0: invariant LexInv(l) && l.pos >= old(l.pos)
+//@   loop 0: invariant forall(i, old(l.pos), l.pos, isSpaceC(byteAt(l.input, i)))
+//@   loop 0: decreases len(l.input) - l.pos
+
+//@ func (l *Lexer) skipComment
+//@   requires LexInv(l)
+//@   ensures LexInv(l) && l.pos >= old(l.pos)+2 && l.isHTML
+//@   modifies @POS, l.isHTML
+//@   loop 0: invariant LexInv(l) && l.pos >= old(l.pos)
+//@   loop 0: decreases len(l.input) - l.pos
+
+//@ func (l *Lexer) isDirectiveToken
+//@   requires LexInv(l)
+//@   ensures result0 ==> l.char == '@'
+//@   modifies nothing
+//@   loop 0: invariant pos == l.pos && i >= 1
+//@   loop 0: decreases longestDir + 1 - i
+
+//@ func (l *Lexer) readHTML
+//@   requires LexInv(l)
+//@   ensures LexInv(l) && l.pos >= old(l.pos) && l.startPos == old(l.pos)
+//@   modifies @POS, @START
+//@   loop 0: invariant LexInv(l) && l.startPos == old(l.pos) && l.pos >= old(l.pos)
+//@   loop 0: decreases len(l.input) - l.pos
+
+//@ func (l *Lexer) NextToken
+//@   requires LexInv(l)
+//@   ensures LexInv(l) && l.pos >= old(l.pos) && TokSpan(l, result)
+//@   decreases len(l.input) - l.pos
+//@   modifies @POS, @START, l.countCurlyBraces, l.countDirectiveParentheses, l.isDirective, l.isHTML
+
+//@ func (l *Lexer) peekChar
+//@   inline
+//@ func (l *Lexer) prevChar
+//@   inline
+//@ func (l *Lexer) areBracesToken
+//@   inline
+//@ func (l *Lexer) isPotentiallyLong
+//@   inline
